@@ -458,6 +458,10 @@ namespace SplineTrajectory
         void markLayoutDirty()
         {
             layout_dirty_ = true;
+            // Rebuild eagerly: the setters are the only non-const entry points that invalidate the
+            // layout, so const members (evaluate, getDimension, generateInitialGuess) never have to
+            // write the mutable cache and stay safe to call concurrently.
+            rebuildLayoutCache();
         }
 
         bool isSpatialOptimized(int idx) const
@@ -544,6 +548,7 @@ namespace SplineTrajectory
         {
             active_time_map_ = &default_time_map_;
             active_spatial_map_ = &default_spatial_map_;
+            rebuildLayoutCache();
         }
 
         SplineOptimizer(const SplineOptimizer &other)
